@@ -2465,6 +2465,11 @@ func (c *Conn) negotiateVersionClient(ctx context.Context) ([]*dtlsflight.Packet
 	if err := c.writePackets(ctx, pkts); err != nil {
 		return nil, err
 	}
+	// No flight machine exists before the version is known: until the server's answer
+	// arrives the ClientHello is retransmitted here, on the usual schedule.
+	stopRetransmit := make(chan struct{})
+	defer close(stopRetransmit)
+	go c.retransmitUntil(ctx, pkts, stopRetransmit)
 
 	for {
 		if err := c.readAndBufferNoFSM(ctx); err != nil {
@@ -2482,6 +2487,39 @@ func (c *Conn) negotiateVersionClient(ctx context.Context) ([]*dtlsflight.Packet
 			return pkts, nil
 		}
 		// ServerHello or HelloVerifyRequest not yet (fully) received; keep reading.
+	}
+}
+
+// retransmitUntil re-sends pkts at intervals that start at the configured value and
+// double after each transmission (up to 60 seconds, constant if backoff is disabled)
+// until stop is closed.
+func (c *Conn) retransmitUntil(ctx context.Context, pkts []*dtlsflight.Packet, stop <-chan struct{}) {
+	interval := c.handshakeConfig.InitialRetransmitInterval
+	if interval <= 0 {
+		return
+	}
+	timer := time.NewTimer(interval)
+	defer timer.Stop()
+	for {
+		select {
+		case <-stop:
+			return
+		case <-ctx.Done():
+			return
+		case <-c.closed.Done():
+			return
+		case <-timer.C:
+		}
+		if err := c.writePackets(ctx, pkts); err != nil {
+			return
+		}
+		if !c.handshakeConfig.DisableRetransmitBackoff {
+			interval *= 2
+		}
+		if interval > 60*time.Second {
+			interval = 60 * time.Second
+		}
+		timer.Reset(interval)
 	}
 }
 
